@@ -98,20 +98,19 @@ bin_in_range(const ProjDataInfo& p, const Bin& b)
          && b.timing_pos_num() >= p.get_min_tof_pos_num() && b.timing_pos_num() <= p.get_max_tof_pos_num();
 }
 
-// class of input geometries of the C01 known finding: a segment holding ONE ring difference d whose axial positions
-// are "shifted with respect to the physical rings" ((d - ax_pos_num_offset) odd)
+// class of input geometries of the C01 known finding (ringpairs:outermost-segment-clipped-to-single-ring-difference-of-odd-parity):
+// a segment holding ONE ring difference d whose axial positions are "shifted with respect to the physical rings"
+// ((d - ax_pos_num_offset) odd: exactly the condition of the library's own warning in initialise_ring_diff_arrays)
 static bool
-has_shifted_single_rd_segment(const ProjDataInfoCylindrical& p)
+is_shifted_single_rd_segment(const ProjDataInfoCylindrical& p, int s)
 {
+  if (s < p.get_min_segment_num() || s > p.get_max_segment_num())
+    return false;
+  if (p.get_min_ring_difference(s) != p.get_max_ring_difference(s))
+    return false;
   const int R = p.get_scanner_ptr()->get_num_rings();
-  for (int s = p.get_min_segment_num(); s <= p.get_max_segment_num(); ++s)
-    if (p.get_min_ring_difference(s) == p.get_max_ring_difference(s))
-      {
-        const int off = (R - 1) - (p.get_num_axial_poss(s) - 1);
-        if ((p.get_min_ring_difference(s) - off) % 2 != 0)
-          return true;
-      }
-  return false;
+  const int off = (R - 1) - (p.get_num_axial_poss(s) - 1);
+  return (p.get_min_ring_difference(s) - off) % 2 != 0;
 }
 
 struct SsrbParams
